@@ -4,8 +4,8 @@
    under a `_partial` twin (see DESIGN.md section 9). *)
 From Coq Require Import List String Bool Permutation.
 Import ListNotations.
-From DI Require Import Syntax Tokens Bounds Param Subs Superset Substitute Spec RustSem Group Validate IMap Hygiene Dispatch Examples ExamplesGroup.
-From DI.proofs Require Import Basics SupersetSound SupersetExact SupersetComplete SupersetWf SubstituteProofs SubstituteSpec BoundsProofs DispatchProofs GroupProofs ParamProofs ParamAlpha RustSemProofs ValidateProofs IMapProofs HygieneProofs.
+From DI Require Import Syntax Tokens Bounds Param Subs Superset Substitute Spec RustSem Group Search Validate IMap Hygiene Dispatch Examples ExamplesGroup.
+From DI.proofs Require Import Basics SupersetSound SupersetExact SupersetComplete SupersetWf SubstituteProofs SubstituteSpec BoundsProofs DispatchProofs GroupProofs SearchProofs ParamProofs ParamAlpha RustSemProofs ValidateProofs IMapProofs HygieneProofs.
 
 (* ===================================================================================== *)
 (* C09 -- header generalisation is exact first-order matching                             *)
@@ -253,6 +253,22 @@ Example C11_nonvacuous :
   end.
 Proof. vm_compute. repeat split. Qed.
 Print Assumptions C11_nonvacuous.
+
+(* the family search itself is modelled (Search.v, compared for equality with the grouping
+   the macro reports on every generated invocation); whatever it returns, every family has a
+   dispatch key and no row of payloads generalises another row of the same family *)
+Theorem C11_search_families_ok : forall fuel blocks gm,
+  search fuel blocks = Some gm ->
+  Forall (fun e => abg_is_empty (fst (snd e)) = false /\ abg_is_overlapping (fst (snd e)) = false) gm.
+Proof. exact search_families_ok. Qed.
+Print Assumptions C11_search_families_ok.
+
+(* the model reproduces the macro's own grouping of the example invocation (three blocks, a
+   nested member, two families) and that grouping passes the invariant checker *)
+Example C11_search_nonvacuous :
+  search_render ex_blocks = Some ex_grouping.
+Proof. vm_compute. reflexivity. Qed.
+Print Assumptions C11_search_nonvacuous.
 
 (* ===================================================================================== *)
 (* C05 -- block order independence (meaning of the expansion)                              *)
